@@ -133,12 +133,12 @@ Proofs/SignalProofs.vos Proofs/SignalProofs.vok Proofs/SignalProofs.required_vos
 Proofs/SortRecovers.vo Proofs/SortRecovers.glob Proofs/SortRecovers.v.beautified Proofs/SortRecovers.required_vo: Proofs/SortRecovers.v 
 Proofs/SortRecovers.vio: Proofs/SortRecovers.v 
 Proofs/SortRecovers.vos Proofs/SortRecovers.vok Proofs/SortRecovers.required_vos: Proofs/SortRecovers.v 
-Props/C01.vo Props/C01.glob Props/C01.v.beautified Props/C01.required_vo: Props/C01.v Lib/NumOps.vo Gen/GenChunk.vo Model/Chunk.vo Proofs/ChunkPartition.vo Gen/GenProto.vo Model/Core.vo Spec/ProtoSpec.vo Proofs/CoreCons.vo Proofs/CoreResult.vo Proofs/SortRecovers.vo Gen/GenStruct.vo Model/Reorder.vo Proofs/ReorderProofs.vo
-Props/C01.vio: Props/C01.v Lib/NumOps.vio Gen/GenChunk.vio Model/Chunk.vio Proofs/ChunkPartition.vio Gen/GenProto.vio Model/Core.vio Spec/ProtoSpec.vio Proofs/CoreCons.vio Proofs/CoreResult.vio Proofs/SortRecovers.vio Gen/GenStruct.vio Model/Reorder.vio Proofs/ReorderProofs.vio
-Props/C01.vos Props/C01.vok Props/C01.required_vos: Props/C01.v Lib/NumOps.vos Gen/GenChunk.vos Model/Chunk.vos Proofs/ChunkPartition.vos Gen/GenProto.vos Model/Core.vos Spec/ProtoSpec.vos Proofs/CoreCons.vos Proofs/CoreResult.vos Proofs/SortRecovers.vos Gen/GenStruct.vos Model/Reorder.vos Proofs/ReorderProofs.vos
-Props/C02.vo Props/C02.glob Props/C02.v.beautified Props/C02.required_vo: Props/C02.v Lib/NumOps.vo Gen/GenProto.vo Model/Core.vo Spec/ProtoSpec.vo Proofs/CoreCons.vo Proofs/CoreResult.vo
-Props/C02.vio: Props/C02.v Lib/NumOps.vio Gen/GenProto.vio Model/Core.vio Spec/ProtoSpec.vio Proofs/CoreCons.vio Proofs/CoreResult.vio
-Props/C02.vos Props/C02.vok Props/C02.required_vos: Props/C02.v Lib/NumOps.vos Gen/GenProto.vos Model/Core.vos Spec/ProtoSpec.vos Proofs/CoreCons.vos Proofs/CoreResult.vos
+Props/C01.vo Props/C01.glob Props/C01.v.beautified Props/C01.required_vo: Props/C01.v Lib/NumOps.vo Gen/GenChunk.vo Model/Chunk.vo Proofs/ChunkPartition.vo Gen/GenProto.vo Model/Core.vo Spec/ProtoSpec.vo Proofs/CoreCons.vo Proofs/CoreResult.vo Proofs/SortRecovers.vo Gen/GenStruct.vo Model/Reorder.vo Proofs/ReorderProofs.vo Gen/GenParams.vo Model/OrderHist.vo Model/Hist.vo Proofs/HistProofs.vo
+Props/C01.vio: Props/C01.v Lib/NumOps.vio Gen/GenChunk.vio Model/Chunk.vio Proofs/ChunkPartition.vio Gen/GenProto.vio Model/Core.vio Spec/ProtoSpec.vio Proofs/CoreCons.vio Proofs/CoreResult.vio Proofs/SortRecovers.vio Gen/GenStruct.vio Model/Reorder.vio Proofs/ReorderProofs.vio Gen/GenParams.vio Model/OrderHist.vio Model/Hist.vio Proofs/HistProofs.vio
+Props/C01.vos Props/C01.vok Props/C01.required_vos: Props/C01.v Lib/NumOps.vos Gen/GenChunk.vos Model/Chunk.vos Proofs/ChunkPartition.vos Gen/GenProto.vos Model/Core.vos Spec/ProtoSpec.vos Proofs/CoreCons.vos Proofs/CoreResult.vos Proofs/SortRecovers.vos Gen/GenStruct.vos Model/Reorder.vos Proofs/ReorderProofs.vos Gen/GenParams.vos Model/OrderHist.vos Model/Hist.vos Proofs/HistProofs.vos
+Props/C02.vo Props/C02.glob Props/C02.v.beautified Props/C02.required_vo: Props/C02.v Lib/NumOps.vo Gen/GenProto.vo Model/Core.vo Spec/ProtoSpec.vo Proofs/CoreCons.vo Proofs/CoreResult.vo Gen/GenStruct.vo Gen/GenParams.vo Model/OrderHist.vo Model/Hist.vo Proofs/HistProofs.vo
+Props/C02.vio: Props/C02.v Lib/NumOps.vio Gen/GenProto.vio Model/Core.vio Spec/ProtoSpec.vio Proofs/CoreCons.vio Proofs/CoreResult.vio Gen/GenStruct.vio Gen/GenParams.vio Model/OrderHist.vio Model/Hist.vio Proofs/HistProofs.vio
+Props/C02.vos Props/C02.vok Props/C02.required_vos: Props/C02.v Lib/NumOps.vos Gen/GenProto.vos Model/Core.vos Spec/ProtoSpec.vos Proofs/CoreCons.vos Proofs/CoreResult.vos Gen/GenStruct.vos Gen/GenParams.vos Model/OrderHist.vos Model/Hist.vos Proofs/HistProofs.vos
 Props/C03.vo Props/C03.glob Props/C03.v.beautified Props/C03.required_vo: Props/C03.v Lib/NumOps.vo Gen/GenProto.vo Model/Core.vo Spec/ProtoSpec.vo Proofs/CoreInv.vo Proofs/CoreInit.vo Proofs/CoreProgress.vo Proofs/CoreMeasure.vo Gen/GenAsync.vo Gen/GenStruct.vo Gen/GenObserve.vo Model/OrderHist.vo Model/Apply.vo Model/Fail.vo Proofs/FailProofs.vo
 Props/C03.vio: Props/C03.v Lib/NumOps.vio Gen/GenProto.vio Model/Core.vio Spec/ProtoSpec.vio Proofs/CoreInv.vio Proofs/CoreInit.vio Proofs/CoreProgress.vio Proofs/CoreMeasure.vio Gen/GenAsync.vio Gen/GenStruct.vio Gen/GenObserve.vio Model/OrderHist.vio Model/Apply.vio Model/Fail.vio Proofs/FailProofs.vio
 Props/C03.vos Props/C03.vok Props/C03.required_vos: Props/C03.v Lib/NumOps.vos Gen/GenProto.vos Model/Core.vos Spec/ProtoSpec.vos Proofs/CoreInv.vos Proofs/CoreInit.vos Proofs/CoreProgress.vos Proofs/CoreMeasure.vos Gen/GenAsync.vos Gen/GenStruct.vos Gen/GenObserve.vos Model/OrderHist.vos Model/Apply.vos Model/Fail.vos Proofs/FailProofs.vos
@@ -163,12 +163,12 @@ Props/C09.vos Props/C09.vok Props/C09.required_vos: Props/C09.v Lib/NumOps.vos G
 Props/C10.vo Props/C10.glob Props/C10.v.beautified Props/C10.required_vo: Props/C10.v Gen/GenStruct.vo Gen/GenParams.vo Model/OrderHist.vo Model/Hist.vo Proofs/HistProofs.vo
 Props/C10.vio: Props/C10.v Gen/GenStruct.vio Gen/GenParams.vio Model/OrderHist.vio Model/Hist.vio Proofs/HistProofs.vio
 Props/C10.vos Props/C10.vok Props/C10.required_vos: Props/C10.v Gen/GenStruct.vos Gen/GenParams.vos Model/OrderHist.vos Model/Hist.vos Proofs/HistProofs.vos
-Props/C11.vo Props/C11.glob Props/C11.v.beautified Props/C11.required_vo: Props/C11.v Lib/NumOps.vo Gen/GenProto.vo Model/Core.vo Spec/ProtoSpec.vo Proofs/CoreInit.vo
-Props/C11.vio: Props/C11.v Lib/NumOps.vio Gen/GenProto.vio Model/Core.vio Spec/ProtoSpec.vio Proofs/CoreInit.vio
-Props/C11.vos Props/C11.vok Props/C11.required_vos: Props/C11.v Lib/NumOps.vos Gen/GenProto.vos Model/Core.vos Spec/ProtoSpec.vos Proofs/CoreInit.vos
-Props/C12.vo Props/C12.glob Props/C12.v.beautified Props/C12.required_vo: Props/C12.v Lib/NumOps.vo Gen/GenProto.vo Gen/GenStruct.vo Model/Core.vo Spec/ProtoSpec.vo Proofs/CoreCons.vo Proofs/CoreResult.vo Proofs/CoreLife.vo Model/Death.vo Proofs/DeathProofs.vo
-Props/C12.vio: Props/C12.v Lib/NumOps.vio Gen/GenProto.vio Gen/GenStruct.vio Model/Core.vio Spec/ProtoSpec.vio Proofs/CoreCons.vio Proofs/CoreResult.vio Proofs/CoreLife.vio Model/Death.vio Proofs/DeathProofs.vio
-Props/C12.vos Props/C12.vok Props/C12.required_vos: Props/C12.v Lib/NumOps.vos Gen/GenProto.vos Gen/GenStruct.vos Model/Core.vos Spec/ProtoSpec.vos Proofs/CoreCons.vos Proofs/CoreResult.vos Proofs/CoreLife.vos Model/Death.vos Proofs/DeathProofs.vos
+Props/C11.vo Props/C11.glob Props/C11.v.beautified Props/C11.required_vo: Props/C11.v Lib/NumOps.vo Gen/GenProto.vo Model/Core.vo Spec/ProtoSpec.vo Proofs/CoreInit.vo Gen/GenStruct.vo Gen/GenParams.vo Model/OrderHist.vo Model/Hist.vo Proofs/HistProofs.vo
+Props/C11.vio: Props/C11.v Lib/NumOps.vio Gen/GenProto.vio Model/Core.vio Spec/ProtoSpec.vio Proofs/CoreInit.vio Gen/GenStruct.vio Gen/GenParams.vio Model/OrderHist.vio Model/Hist.vio Proofs/HistProofs.vio
+Props/C11.vos Props/C11.vok Props/C11.required_vos: Props/C11.v Lib/NumOps.vos Gen/GenProto.vos Model/Core.vos Spec/ProtoSpec.vos Proofs/CoreInit.vos Gen/GenStruct.vos Gen/GenParams.vos Model/OrderHist.vos Model/Hist.vos Proofs/HistProofs.vos
+Props/C12.vo Props/C12.glob Props/C12.v.beautified Props/C12.required_vo: Props/C12.v Lib/NumOps.vo Gen/GenProto.vo Gen/GenStruct.vo Model/Core.vo Spec/ProtoSpec.vo Proofs/CoreCons.vo Proofs/CoreResult.vo Proofs/CoreLife.vo Model/Death.vo Proofs/DeathProofs.vo Gen/GenParams.vo Model/OrderHist.vo Model/Hist.vo Proofs/HistProofs.vo
+Props/C12.vio: Props/C12.v Lib/NumOps.vio Gen/GenProto.vio Gen/GenStruct.vio Model/Core.vio Spec/ProtoSpec.vio Proofs/CoreCons.vio Proofs/CoreResult.vio Proofs/CoreLife.vio Model/Death.vio Proofs/DeathProofs.vio Gen/GenParams.vio Model/OrderHist.vio Model/Hist.vio Proofs/HistProofs.vio
+Props/C12.vos Props/C12.vok Props/C12.required_vos: Props/C12.v Lib/NumOps.vos Gen/GenProto.vos Gen/GenStruct.vos Model/Core.vos Spec/ProtoSpec.vos Proofs/CoreCons.vos Proofs/CoreResult.vos Proofs/CoreLife.vos Model/Death.vos Proofs/DeathProofs.vos Gen/GenParams.vos Model/OrderHist.vos Model/Hist.vos Proofs/HistProofs.vos
 Props/C13.vo Props/C13.glob Props/C13.v.beautified Props/C13.required_vo: Props/C13.v Lib/NumOps.vo Gen/GenProto.vo Gen/GenArgs.vo Gen/GenStruct.vo Model/Core.vo Spec/ProtoSpec.vo Proofs/CoreIdent.vo Proofs/CoreLife.vo
 Props/C13.vio: Props/C13.v Lib/NumOps.vio Gen/GenProto.vio Gen/GenArgs.vio Gen/GenStruct.vio Model/Core.vio Spec/ProtoSpec.vio Proofs/CoreIdent.vio Proofs/CoreLife.vio
 Props/C13.vos Props/C13.vok Props/C13.required_vos: Props/C13.v Lib/NumOps.vos Gen/GenProto.vos Gen/GenArgs.vos Gen/GenStruct.vos Model/Core.vos Spec/ProtoSpec.vos Proofs/CoreIdent.vos Proofs/CoreLife.vos
